@@ -78,12 +78,12 @@ def _plan(plan, items):
     return fail, reject
 
 
-def _one_pair(S, items, cap, rx, rexc, fail, reject, preproc, pr):
+def _one_pair(S, items, cap, rx, rexc, fail, reject, preproc, pr, errval=()):
     """Run sync and async with the same ranking; return (sync_result, async_result, ooo flag)."""
     ctl = gates.Controller(priorities=pr, settle=0.001, max_settle=0.02).start()
     led = gates.Ledger()
     try:
-        so = watch.run_bounded(lambda: H.run_fifo_direct(S, items, capacity=cap, return_x=rx, return_exceptions=rexc, fail=fail,
+        so = watch.run_bounded(lambda: H.run_fifo_direct(S, items, capacity=cap, return_x=rx, return_exceptions=rexc, fail=fail, errval=errval,
                                                           reject=reject, preproc=preproc, controller=ctl, ledger=led), 20, 'fifo_stream')
     finally:
         ctl.stop()
@@ -93,7 +93,7 @@ def _one_pair(S, items, cap, rx, rexc, fail, reject, preproc, pr):
         actl = gates.AsyncController(priorities=pr).start()
         aled = gates.Ledger()
         try:
-            r = await asyncio.wait_for(H.run_async_fifo_direct(S, items, capacity=cap, return_x=rx, return_exceptions=rexc, fail=fail,
+            r = await asyncio.wait_for(H.run_async_fifo_direct(S, items, capacity=cap, return_x=rx, return_exceptions=rexc, fail=fail, errval=errval,
                                                                reject=reject, preproc=preproc, controller=actl, ledger=aled), 20)
         finally:
             await actl.stop()
@@ -119,6 +119,7 @@ def run_case(case):
     if kind in ('fifo-all-rankings', 'fifo-seeded'):
         n = case['n']
         items = list(range(500, 500 + n))
+        errval = ()
         if kind == 'fifo-all-rankings':
             fail, reject = _plan(case['plan'], items)
             rankings = list(itertools.permutations(range(n)))
@@ -126,12 +127,14 @@ def run_case(case):
             rng = random.Random(case['seed'])
             reject = {x for i, x in enumerate(items) if case['reject_every'] and i % case['reject_every'] == 0}
             fail = {x for x in items if rng.random() < case['fail_rate']} - reject
+            # results that *are* exception objects (returned, not raised) are ordinary results in both variants
+            errval = {x for x in items if case['seed'] % 3 == 0 and rng.random() < 0.2} - reject - fail
             rankings = [gates.make_priorities(case['policy'], n, rng)]
         preproc = bool(reject) or (kind == 'fifo-seeded' and case['reject_every'] > 0)
-        exp = H.expected_outputs(items, fail, reject, case['return_x'], case['return_exceptions'], preproc)
+        exp = H.expected_outputs(items, fail, reject, case['return_x'], case['return_exceptions'], preproc, errval)
         for pr in rankings:
             try:
-                s, a, so, ao = _one_pair(S, items, case['capacity'], case['return_x'], case['return_exceptions'], fail, reject, preproc, list(pr))
+                s, a, so, ao = _one_pair(S, items, case['capacity'], case['return_x'], case['return_exceptions'], fail, reject, preproc, list(pr), errval)
             except watch.Hang as h:
                 viol.append({'mech': 'sync/hang', 'msg': 'fifo_stream did not finish', 'stacks': h.stacks})
                 return {'violations': viol, 'obs': obs, 'exit_after': True}
